@@ -570,31 +570,40 @@ pub fn parse_rtcp_packets(raw: &[u8], addr: Option<SocketAddr>) -> RtpResult<Vec
     Ok(packets)
 }
 
+/// The RC / SC field of SR, RR, SDES and BYE is 5 bits wide: at most 31 entries
+/// fit one RTCP packet (RFC 3550 section 6.4.1, 6.5, 6.6).
+fn rtcp_count_field(entries: usize) -> RtpResult<u8> {
+    if entries > 31 {
+        return Err(RtpError::InvalidRtcp("too many entries for a 5-bit RTCP count field"));
+    }
+    Ok(entries as u8)
+}
+
 pub fn marshal_rtcp_packets(packets: &[RtcpPacket]) -> RtpResult<Vec<u8>> {
     let mut out = Vec::new();
     for packet in packets {
         match packet {
             RtcpPacket::SenderReport(sr) => write_rtcp_packet(
                 &mut out,
-                sr.report_blocks.len() as u8,
+                rtcp_count_field(sr.report_blocks.len())?,
                 RTCP_SR,
                 build_sender_report_body(sr)?,
             ),
             RtcpPacket::ReceiverReport(rr) => write_rtcp_packet(
                 &mut out,
-                rr.report_blocks.len() as u8,
+                rtcp_count_field(rr.report_blocks.len())?,
                 RTCP_RR,
                 build_receiver_report_body(rr)?,
             ),
             RtcpPacket::SourceDescription(sdes) => write_rtcp_packet(
                 &mut out,
-                sdes.chunks.len() as u8,
+                rtcp_count_field(sdes.chunks.len())?,
                 RTCP_SDES,
                 build_sdes_body(sdes),
             ),
             RtcpPacket::Goodbye(bye) => write_rtcp_packet(
                 &mut out,
-                bye.sources.len() as u8,
+                rtcp_count_field(bye.sources.len())?,
                 RTCP_BYE,
                 build_goodbye_body(bye),
             ),
